@@ -32,6 +32,7 @@ def build_class(spec, name=None):
     bases = {'Module': Module, 'Readable': Readable, 'Writable': Writable, 'Drivable': Drivable}
     rec = {'calls': [], 'thresholds': {}, 'returns': {}}
     attrs = {'rec': rec}
+    late_attrs = {}
     for p in spec['params']:
         dt = specs.build(p['T'])
         kw = {}
@@ -70,16 +71,19 @@ def build_class(spec, name=None):
             rfunc.__name__ = 'read_' + pname
             attrs['read_' + pname] = rfunc
         lim = p.get('limits')
+        # limits_in_subclass: the parameter (and its check_ hook) come from a base class, the limit parameters are added by the
+        # derived class - there the automatic limit check is generated in addition to the inherited hook
+        lattrs = late_attrs if p.get('limits_in_subclass') else attrs
         if lim in ('min', 'minmax'):
-            attrs[pname + '_min'] = Limit()
+            lattrs[pname + '_min'] = Limit()
         if lim in ('max', 'minmax'):
-            attrs[pname + '_max'] = Limit()
+            lattrs[pname + '_max'] = Limit()
         if lim == 'limits':
-            attrs[pname + '_limits'] = Limit()
+            lattrs[pname + '_limits'] = Limit()
         if p.get('check') is not None:
             rec['thresholds'][pname] = p['check']
 
-            def cfunc(self, value, pname=pname, lim=lim):
+            def cfunc(self, value, pname=pname, lim=lim and not p.get('limits_in_subclass')):
                 rec['calls'].append(('check', pname, rm.canon(value)))
                 if lim:   # a check_ method in the class defining the limits replaces the automatic one (documented)
                     self.checkLimits(value, pname)
@@ -129,6 +133,9 @@ def build_class(spec, name=None):
             else:
                 oattrs[oname] = Parameter('optional parameter', _FR(), optional=True)
         blist[-1] = type('WithOptional', (blist[-1],), oattrs)
+    if late_attrs:
+        mid = type('WithoutLimits', tuple(blist), attrs)
+        blist, attrs = [mid], dict(late_attrs, __doc__='adds limit parameters')
     if spec.get('indirect'):
         # everything (incl. a feature mixin) is inherited through an intermediate class
         mid = type('Generic', tuple(blist), attrs)
@@ -203,6 +210,8 @@ def param_spec(draw, name, depth=2, safe_const=True, ro_variants=False):
         p['limits'] = draw(st.sampled_from(['min', 'max', 'minmax', 'limits']))
     if T['k'] in NUMERIC and flavour in ('rw', 'custom') and draw(st.integers(0, 3)) == 0:
         p['check'] = draw(specs.valid_value(T))
+    if p.get('limits') and draw(st.integers(0, 2)) == 0:
+        p['limits_in_subclass'] = True
     return p
 
 
